@@ -103,9 +103,18 @@ Proof.
     reflexivity.
 Qed.
 
-(* every catalogued call is isolated: full strength (every call, every number of variables, memory or disk) *)
+Lemma dims_safe (c : call) (dims : list nat) : exec (dims_prog c dims) = [].
+Proof.
+  unfold dims_prog. destruct (is_query c); [reflexivity|].
+  induction dims as [|d t IH]; [reflexivity|]. unfold exec in *. simpl. exact IH.
+Qed.
+
+Lemma whole_safe c mem vars dims : impl_effs (Call c mem vars dims) = [].
+Proof. unfold impl_effs. rewrite exec_app, dims_safe, all_safe. reflexivity. Qed.
+
+(* every catalogued call is isolated: full strength (every call, every number of variables and dimensions, memory or disk) *)
 Lemma all_isolated (o : op) : isolated o = true.
-Proof. destruct o as [c mem vars]. unfold isolated, impl_effs. rewrite all_safe. reflexivity. Qed.
+Proof. destruct o as [c mem vars dims]. unfold isolated. rewrite whole_safe. reflexivity. Qed.
 
 (* the transcription is not blind: the statements the repaired calls used to contain do have effects *)
 Lemma old_statements_have_effects :
@@ -115,7 +124,8 @@ Lemma old_statements_have_effects :
   /\ exec [StoreObject (SView (SView (SView (SView (SVar 3)))))] = [EAlias 3] (* slice_dim: the swapaxes/slice view *)
   /\ exec [StoreObject (SView (SView (SVar 1)))] = [EAlias 1]                (* reorderDimensions without .copy() (seeded C05_m7) *)
   /\ exec [Inplace (SView (SView (SVar 1)))] = [EMutate 1]                   (* getTimes / val2idx on the views *)
-  /\ exec [StoreObject (SView (SDisk 2))] = [].                              (* a disk-backed variable: [...] is a new array *)
+  /\ exec [StoreObject (SView (SDisk 2))] = []                               (* a disk-backed variable: [...] is a new array *)
+  /\ exec [StoreDimension 501] = [EAlias 501].                             (* outf.dimensions[dk] = dv (seeded C05_m9) *)
 Proof. vm_compute. repeat split; reflexivity. Qed.
 
 Lemma isolation_all (o : op) :
@@ -140,7 +150,7 @@ Proof.
 Qed.
 
 (* every query leaves the heap exactly as it was and hands back no buffer *)
-Lemma queries_pure (c : call) (mem : bool) (vars : list nat) A (junk : list A) (h : heap A) :
+Lemma queries_pure (c : call) (mem : bool) (vars dims : list nat) A (junk : list A) (h : heap A) :
   is_query c = true ->
-  run_actions A h (actions_of (impl_effs (Call c mem vars)) [] junk) = (h, []).
-Proof. intros _. unfold impl_effs. rewrite all_safe. reflexivity. Qed.
+  run_actions A h (actions_of (impl_effs (Call c mem vars dims)) [] junk) = (h, []).
+Proof. intros _. rewrite whole_safe. reflexivity. Qed.
